@@ -164,9 +164,9 @@ class Prover:
         self.log = []
     # atom knowledge -------------------------------------------------------
     def atom_inst(self, a):
-        if isinstance(a, tuple) and a[0] in ("v", "trunc", "and", "i", "ld", "mul"):
+        if isinstance(a, tuple) and a[0] in ("v", "trunc", "and", "i", "ld", "mul", "wrap"):
             if a[0] == "v" and a[1] == "inst": return self.fn.imap.get(a[2])
-            if a[0] in ("trunc", "and", "i", "ld", "mul"): return self.fn.imap.get(a[1])
+            if a[0] in ("trunc", "and", "i", "ld", "mul", "wrap"): return self.fn.imap.get(a[1])
         return None
     def intrinsic_upper(self, a):
         """list of Lin facts (<=0) known about atom a by construction"""
@@ -178,6 +178,16 @@ class Prover:
             if bits < 64: out.append(A - ((1 << bits) - 1))
             return out
         if i is None: return out
+        if isinstance(a, tuple) and a[0] == "wrap":
+            # a product that may wrap in its (narrow) type is at most the mathematical product and at most the type's maximum
+            x, y = i.ops
+            cx = int(x["v"]) if x["k"] == "int" else None; cy = int(y["v"]) if y["k"] == "int" else None
+            if i.op == "shl" and cy is not None: out.append(A - self.fi.lin(x).scale(1 << cy))
+            elif i.op == "mul" and cy is not None: out.append(A - self.fi.lin(x).scale(cy))
+            elif i.op == "mul" and cx is not None: out.append(A - self.fi.lin(y).scale(cx))
+            bits = type_bits(i["t"])
+            if bits and bits < 64: out.append(A - ((1 << bits) - 1))
+            return out
         if i.op == "trunc":
             out.append(A - self.fi.lin(i.ops[0]))                       # trunc(v) <= v
             bits = type_bits(i["t"]);  out.append(A - ((1 << bits) - 1))
